@@ -341,3 +341,8 @@ def run(prog, chk):
                   "new spelling with that stored spelling, not with the normalised key", primary=False, floor=1)
     if memrules.keep_or_replace(prog, r4) < 1:
         raise Broken("the keep-or-replace idiom of cif_map_set_item was not found")
+
+    r5 = chk.rule("R5-hash-key-length", "names and keys are hashed over u_strlen(key) * sizeof(UChar) bytes of the normalised key that "
+                  "is stored: a shorter length merges distinct keys, a length taken from another string hides the entry", primary=False, floor=5)
+    if memrules.hash_key_length(prog, r5) < 5:
+        raise Broken("fewer than 5 uthash insertions found")
